@@ -3,6 +3,7 @@ package checks
 import (
 	"encoding/json"
 	"fmt"
+	"sort"
 	"strings"
 
 	webdav "github.com/emersion/go-webdav"
@@ -176,6 +177,42 @@ func c04Agreement(t harness.Tree, p string) (clause, detail string) {
 		return "agreement-delete-if-match-own-tag", fmt.Sprint(r.Status)
 	}
 	return "", ""
+}
+
+// c04Listing: every entity tag a PROPFIND listing (Depth 1 / infinity) announces for a member is the member's own:
+// equal to what HEAD announces for it (a resource for which HEAD announces none must not be given one by the
+// listing) and accepted back in If-Match (the DELETE is carried out), whatever was listed before it.
+func c04Listing(t harness.Tree, target, depth string) (clause, detail string, n int) {
+	w := newFSWorker()
+	defer w.close()
+	w.load(t)
+	pf := harness.Serve(w.handler, harness.Req{Method: "PROPFIND", Path: target, Header: map[string]string{"Depth": depth, "Content-Type": "text/xml"}, Body: pfProp})
+	ms, err := indep.ReadMultiStatus(pf.Body)
+	if err != nil {
+		return "listing-propfind", fmt.Sprintf("%d %v", pf.Status, err), 0
+	}
+	for _, r := range ms.Responses {
+		pe := r.Prop(indep.DAV, "getetag")
+		if len(pe) != 1 || pe[0].Status != 200 || len(r.Hrefs) != 1 {
+			continue
+		}
+		tag := strings.TrimSpace(pe[0].Node.Text)
+		hp, err := indep.HrefPath(r.Hrefs[0])
+		if err != nil {
+			return "listing-href", r.Hrefs[0], n
+		}
+		n++
+		w.load(t)
+		head := harness.Serve(w.handler, harness.Req{Method: "HEAD", Path: hp})
+		if head.Header.Get("ETag") != tag {
+			return "listing-tag-differs-from-head", fmt.Sprintf("PROPFIND %s depth %s announces %s for %s, HEAD answers %d with %q", target, depth, tag, hp, head.Status, head.Header.Get("ETag")), n
+		}
+		del := harness.Serve(w.handler, harness.Req{Method: "DELETE", Path: hp, Header: map[string]string{"If-Match": tag}})
+		if del.Status/100 != 2 {
+			return "listing-tag-not-accepted-back", fmt.Sprintf("PROPFIND %s depth %s announces %s for %s, DELETE If-Match answers %d", target, depth, tag, hp, del.Status), n
+		}
+	}
+	return "", "", n
 }
 
 // c04DoubleTag: a backend double holds a file with an arbitrary tag; the tag announced by GET, HEAD
@@ -364,6 +401,41 @@ func init() {
 			}
 		})
 		base += 1000
+		// listing agreement: the truth-table states plus trees in which a file is listed before a collection
+		type lg struct {
+			t             harness.Tree
+			target, depth string
+		}
+		var lgs []lg
+		lstates := append(append([]harness.Tree(nil), states...),
+			harness.Tree{"/": {Dir: true}, "/a.txt": {Content: "x"}, "/b": {Dir: true}, "/b/c": {Content: "yy"}, "/c": {Dir: true}},
+			harness.Tree{"/": {Dir: true}, "/d": {Dir: true}, "/d/a": {Content: "x"}, "/d/b": {Dir: true}, "/d/c": {Content: ""}, "/d/e": {Dir: true}, "/d/e/f": {Content: "zz"}})
+		for _, t := range lstates {
+			for p, nd := range t {
+				if nd.Dir {
+					for _, d := range []string{"1", "infinity"} {
+						lgs = append(lgs, lg{t, p, d})
+					}
+				}
+			}
+		}
+		sort.Slice(lgs, func(i, j int) bool {
+			return lgs[i].t.Canon()+lgs[i].target+lgs[i].depth < lgs[j].t.Canon()+lgs[j].target+lgs[j].depth
+		})
+		r.Parallel(len(lgs), func(i int, s *engine.Shard) {
+			clause, detail, n := c04Listing(lgs[i].t, lgs[i].target, lgs[i].depth)
+			for k := 0; k < 1+2*n; k++ {
+				s.Transition()
+			}
+			s.Add("listing transitions", int64(1+2*n))
+			s.Clause("listing: a tag announced for a member is the member's own (HEAD) and is accepted back")
+			s.Nontrivial(fmt.Sprintf("LG/%d", i))
+			if clause != "" {
+				s.Violate(engine.Violation{Sig: "C04/" + clause, Clause: clause, Index: base + int64(i), Kind: "C04", Case: c04Case{Part: "listing", State: lgs[i].t, Path: lgs[i].target, Tag: lgs[i].depth},
+					Expected: "every tag of the listing equals the member's HEAD tag and is accepted in If-Match", Observed: detail})
+			}
+		})
+		base += 1000
 		// codec
 		tags := c04Tags(maxLen)
 		others := c04Tags(1)
@@ -431,6 +503,8 @@ func init() {
 		switch c.Part {
 		case "agreement":
 			clause, detail = c04Agreement(c.State, c.Path)
+		case "listing":
+			clause, detail, _ = c04Listing(c.State, c.Path, c.Tag)
 		case "codec":
 			others := append(c04Tags(1), "aa", `a"`, `"a`, "*")
 			clause, detail = c04Codec(c.Tag, others)
